@@ -446,7 +446,7 @@ func runConformance(r *evid.Run) {
 		return
 	}
 	defer eng.Close()
-	alpha := alphabet(narrowKeys, []int{0, 1, 2, 3}, []string{"v1", `{"json":"<&>"}`})
+	alpha := alphabet(narrowKeys, []int{0, 1, 2, 3}, []string{"", `{"json":"<&>"}`}) // incl. the empty value
 	total := par.SeqCount(len(alpha), 2)
 	type side struct {
 		set func(k, v string, ver uint64) (kv.Pair, error)
@@ -514,6 +514,13 @@ func runConformance(r *evid.Run) {
 		}
 		defer func() { _ = eng.NodeHost.StopShard(rs.ClusterID) }()
 		b := &side{set: rs.Set, del: rs.Delete, get: rs.Get, cur: map[string]uint64{}, prv: map[string]uint64{}}
+		// what the property says the real store must return, from a plain map of the successful updates
+		type cell struct {
+			value string
+			ver   uint64
+		}
+		model := map[string]cell{}
+		var maxVer uint64
 		for step, oi := range seq {
 			o := alpha[oi]
 			var res [2]string
@@ -522,6 +529,26 @@ func runConformance(r *evid.Run) {
 				if o.Op == "set" {
 					p, err := s.set(o.Key, o.Value, ver)
 					res[si] = fmt.Sprintf("%s key=%s value=%s", errClass(err), p.Key, p.Value)
+					if si == 1 {
+						cur, exists := model[o.Key]
+						switch {
+						case errors.Is(err, kv.ErrVersionMismatch):
+							if !exists || cur.ver == ver {
+								r.Violate("raftstore/set-refused-although-version-matches", fmt.Sprintf("sequence %v step %d %s (ver %d)", describe(alpha, seq), step, o, ver), map[string]any{"kind": "conformance", "seq": seq})
+							} else if p.Key != o.Key || p.Value != cur.value || p.Ver != cur.ver {
+								r.Violate("raftstore/version-mismatch-does-not-report-the-current-pair", fmt.Sprintf("sequence %v step %d %s (ver %d): reported {%s %q %d}, current pair {%s %q %d}", describe(alpha, seq), step, o, ver, p.Key, p.Value, p.Ver, o.Key, cur.value, cur.ver), map[string]any{"kind": "conformance", "seq": seq})
+							}
+						case err == nil:
+							if exists && cur.ver != ver {
+								r.Violate("raftstore/set-accepted-with-stale-version", fmt.Sprintf("sequence %v step %d %s (ver %d, current %d)", describe(alpha, seq), step, o, ver, cur.ver), map[string]any{"kind": "conformance", "seq": seq})
+							}
+							if p.Key != o.Key || p.Value != o.Value || p.Ver <= maxVer {
+								r.Violate("raftstore/successful-set-returns-wrong-pair", fmt.Sprintf("sequence %v step %d %s: returned {%s %q %d}, versions handed out before reach %d", describe(alpha, seq), step, o, p.Key, p.Value, p.Ver, maxVer), map[string]any{"kind": "conformance", "seq": seq})
+							}
+							maxVer = max(maxVer, p.Ver)
+							model[o.Key] = cell{o.Value, p.Ver}
+						}
+					}
 					if err == nil {
 						if c, ok := s.cur[o.Key]; ok {
 							s.prv[o.Key] = c
@@ -531,6 +558,9 @@ func runConformance(r *evid.Run) {
 				} else {
 					err := s.del(o.Key, ver)
 					res[si] = errClass(err)
+					if si == 1 && err == nil {
+						delete(model, o.Key)
+					}
 					if err == nil {
 						if c, ok := s.cur[o.Key]; ok {
 							s.prv[o.Key] = c
@@ -550,6 +580,9 @@ func runConformance(r *evid.Run) {
 		for _, k := range narrowKeys {
 			pa, ea := a.get(k)
 			pb, eb := b.get(k)
+			if cur, exists := model[k]; exists != (eb == nil) || (exists && (pb.Value != cur.value || pb.Ver != cur.ver)) {
+				r.Violate("raftstore/final-read-differs-from-successful-updates", fmt.Sprintf("sequence %v key %s: RaftStore %v %v, model %v (exists %v)", describe(alpha, seq), k, pb, eb, cur, exists), map[string]any{"kind": "conformance", "seq": seq})
+			}
 			if errClass(ea) != errClass(eb) || pa.Value != pb.Value {
 				r.Violate("conformance/store-adapter-differs-from-RaftStore/final-read", fmt.Sprintf("sequence %v key %s: adapter %v %v, RaftStore %v %v", describe(alpha, seq), k, pa, ea, pb, eb), map[string]any{"kind": "conformance", "seq": seq})
 			}
